@@ -8,7 +8,7 @@ LEVEL = 'exploration'
 RES = {0: 'OK', 1: 'NA', 2: 'FAIL'}
 T0 = 1500000000            # aggregation time of the signatures used with certificates
 KEY = b'anon'
-EXT_BEHAVIOURS = ['honest', 'other-root', 'other-input-hash', 'other-aggr-time', 'altered-right-link', 'surplus-right-link', 'missing-right-link', 'status-error', 'bad-mac', 'no-reply', 'wrong-id', 'error-pdu']
+EXT_BEHAVIOURS = ['honest', 'other-root', 'other-input-hash', 'other-aggr-time', 'altered-right-link', 'surplus-right-link', 'missing-right-link', 'no-aggr-time-element', 'status-error', 'bad-mac', 'no-reply', 'wrong-id', 'error-pdu']
 WRONG_SHAPE_EXT = ('surplus-right-link', 'missing-right-link')
 FAILING_EXT = ('status-error', 'bad-mac', 'no-reply', 'wrong-id', 'error-pdu')
 
@@ -111,6 +111,10 @@ class Extender:
                 chain.links[i] = (False, gen._flip_digest(chain.links[i][1], rng))
             else:
                 self.effective = 'honest'
+        elif b == 'no-aggr-time-element':
+            # the optional aggregation-time element is left out: the chain then claims its publication time as aggregation time
+            if tt != pp:
+                chain.aggr_time = None
         elif b == 'surplus-right-link':
             # the honest links followed by one more right link (the times stay as requested: the shape no longer fits them)
             chain.links.append((False, gen.rnd_imprint(rng, 1)))
@@ -159,6 +163,9 @@ def expect(policy, sc):
         if ext in WRONG_SHAPE_EXT:
             # another root; a client may also refuse the reply because its shape does not fit its times
             return ('ANY', [('FAIL', {'PUB-01', 'PUB-02'}), ('NA',)])
+        if ext == 'no-aggr-time-element':
+            # the reply is for another aggregation time (its publication time): never OK; a client may refuse it outright
+            return ('ANY', [('FAIL', {'PUB-02', 'PUB-01', 'PUB-03'}), ('NA',)])
         if ext == 'other-aggr-time':
             return ('FAIL', {'PUB-02', 'PUB-01', 'PUB-03'})
         if ext == 'other-input-hash':
@@ -220,6 +227,8 @@ def expect(policy, sc):
             return ('NA',)
         if ext_ok:
             return ('OK',)
+        if ext == 'no-aggr-time-element':
+            return ('ANY', [('FAIL', {'CAL-03', 'CAL-01', 'CAL-04', 'CAL-02'}), ('NA',)])
         if ext in WRONG_SHAPE_EXT and kind == 'nocal':
             return None     # the signature has no right links of its own to reproduce; a shape that does not fit the reply's times is C08's subject: observed, not judged
         if ext in WRONG_SHAPE_EXT:
@@ -354,7 +363,15 @@ def worker(job, r):
             res = RES.get(int(q.get('res', -1))) if q.get('res', 'none') != 'none' else 'NA'     # an error status without a verdict is the inconclusive class
             err = q.get('err', '')
             got = '%s/%s' % (res, err or '-')
-            e = expect(policy, sc)
+            sce = sc
+            if ext == 'no-aggr-time-element' and srv.asked:
+                same = [a == p for a, p in srv.asked]
+                if all(same):
+                    sce = dict(sc, ext='honest')       # aggregation time == publication time: leaving the element out is the honest encoding
+                elif any(same):
+                    r.count('not_judged_mixed_aggr_time_requests')
+                    continue
+            e = expect(policy, sce)
             r.observe((policy, kind, upk, pfk, ext if srv.asked else 'ext-unused', allowed, got))
             r.count('verdict_%s_%s' % (policy, res))
             replay = 'policy=%s kind=%s userpub=%s(%s) pubfile=%s ext=%s allowed=%s asked=%s sig=%s' % (policy, kind, upk, userpub and userpub[0], pfk, ext, allowed, srv.asked, raw)
